@@ -183,6 +183,11 @@ class Crate:
         self.tag = j["tag"]
         self.cfg = j["cfg"]
         it = j["items"]
+        from .hir import strip_generics as sg
+        for coll in (it["fns"], it["adts"], it["consts"], j["hir"], j["mir"]):
+            for x in coll:
+                x["path_full"] = x["path"]
+                x["path"] = sg(x["path"])
         self.fns = {f["path"]: f for f in it["fns"]}
         self.adts = {a["path"]: a for a in it["adts"]}
         self.consts = {c["path"]: c for c in it["consts"]}
